@@ -408,7 +408,9 @@ func (t *trans) loadAt(addr string, ft types.Type) string {
 	// record reads for footprint collection
 	if t.reads != nil {
 		for _, lf := range t.c.leaves(ft) {
-			t.reads[t.c.cellKey(lf.typ)] = true
+			for _, alt := range t.c.leafKeys(addrPath(addr, lf.fids), lf.typ) {
+				t.reads[alt.key] = true
+			}
 		}
 	}
 	return t.c.loadAt(t.cur, addr, ft)
